@@ -540,6 +540,8 @@ func genHopeless(r *rng, c genCfg) *scenario {
 	if t.Form == "pos" {
 		dead.Name = ""
 	} else if r.chance(1, 5) {
+		dead.Name = "k9" // declared as an embedded field of the parameter struct
+	} else if r.chance(1, 5) {
 		// a subtype with characters that mean something to a formatter: the message must still mention the argument
 		dead.Sub = []string{"pkg%2FMessage", "100%d", "%s"}[r.intn(3)]
 	}
